@@ -424,8 +424,11 @@ PROPS["C02"]["level"] = "model_checking"
 PROPS["C02"]["mc"] = cluster_mc([
     ("c02_n2", "exhaustive: 2 instances, every interleaving, horizon = the discovery bound", BOTH),
     ("c02_n3", "exhaustive: 3 instances, every interleaving and target choice, horizon = the discovery bound", BOTH),
-    ("c02_n3g", "exhaustive: 3 instances, max_transmissions 1, periodic gossip and announce on", ("thorough",)),
 ])
+# with periodic gossip and announce on the interleavings explode (8*10^6 states at depth 28 without finishing): random walks
+PROPS["C02"]["mc"].append({"module": "MC_Cluster", "cfg": "MC_Cluster_c02_n3g.cfg", "workers": 8, "tiers": ("thorough",),
+                           "simulate": "-simulate num=400 -depth 900", "timeout": 2400,
+                           "what": "random walks: 3 instances, max_transmissions 1, periodic gossip and announce on"})
 PROPS["C03"]["level"] = "model_checking"
 PROPS["C03"]["mc"] = cluster_mc([
     ("c03_n2", "exhaustive: 2 instances, crash or leave of either at every reachable state of the formed cluster", BOTH),
